@@ -37,6 +37,10 @@ def is_entry_path(o):
 
 def run(ctx):
     prog = ctx.prog
+    # The removal routine: `DeleteMatcher::delete` where it exists as a function of its own; where it was folded into (or
+    # written as a private helper spliced into) `<DeleteMatcher as Matcher>::matches`, that function is the routine.
+    separate = DELETE_FN in prog.fns
+    owner = DELETE_FN if separate else DELETE_MATCHES
     # ---- R1 removal API discipline -------------------------------------------------------
     n_rem = 0
     for f, b, t in prog.all_calls():
@@ -46,9 +50,9 @@ def run(ctx):
         base = callee.split("::<")[0]
         if base in REMOVERS:
             n_rem += 1
-            ok_where = f.path == DELETE_FN
+            ok_where = f.path == owner
             ctx.ob("R1", "remover-site:%s@%s" % (prim.short(base), prim.short(f.path)), ok_where,
-                   "%s called in %s; allowed only in %s" % (base, f.path, DELETE_FN), fn=f, where=prim.site(f, b),
+                   "%s called in %s; allowed only in %s" % (base, f.path, owner), fn=f, where=prim.site(f, b),
                    how="who-may-call")
             o = prim.origin_of_operand(f, t.args[0])
             ok_arg = is_entry_path(o)
@@ -72,7 +76,7 @@ def run(ctx):
                fn=f, where=prim.site(f, b), how="who-may-call")
 
     # ---- R2 decision table -----------------------------------------------------------------
-    f = ctx.fn("R2", DELETE_FN)
+    f = ctx.fn("R2", owner)
     if f is not None:
         def role(t):
             c = t.callee or ""
@@ -98,12 +102,30 @@ def run(ctx):
         ctx.ob("R2", "atoms", not unknown and {"remove_dir", "remove_file"} <= roles,
                "decision atoms found: %s (need is_dir, is_link, both removers; unknown tests make the table undecidable)" % sorted(roles), fn=f)
         if not unknown:
+            # where the routine is part of `matches`, the table starts at its first question and ends at the removal
+            # (what follows the removal is R3's business; R3 also shows that no second removal can follow)
+            firstq = sorted(n for n in {a for a, _, _ in g.canon()} if C.base(n) in ("is_dir", "is_link"))
+            start = "ENTRY" if separate or not firstq else ([n for n in firstq if C.base(n) == "is_dir"] or firstq)[0]
+            if not separate:
+                # the first question must be asked on every path that reaches a removal
+                can = g.canon()
+                def reach_avoiding(avoid):
+                    seen, st = {"ENTRY"}, ["ENTRY"]
+                    while st:
+                        x = st.pop()
+                        for a, _, b2 in can:
+                            if a == x and b2 not in seen and b2 != avoid:
+                                seen.add(b2)
+                                st.append(b2)
+                    return seen
+                leak = sorted(n for n in reach_avoiding(start) if n.startswith("remove_"))
+                ctx.ob("R2", "table-guards-every-removal", not leak, "removals reachable without passing the first type question %s: %s" % (start, leak), fn=f, how="event graph reachability")
             for is_dir, is_link in itertools.product([False, True], repeat=2):
-                tr = C.simulate(g, {"is_dir": is_dir, "is_link": is_link})
+                tr = C.simulate(g, {"is_dir": is_dir, "is_link": is_link}, start=start, stop=None if separate else (lambda n: n.startswith("remove_")))
                 want = "remove_dir" if (is_dir and not is_link) else "remove_file"
                 got = None
                 if tr:
-                    got = [n for n in tr if n.startswith("remove_")]
+                    got = [C.base(n) for n in tr if n.startswith("remove_")]
                 ok = tr is not None and got == [want]
                 ctx.ob("R2", "row:is_dir=%s,is_link=%s" % (is_dir, is_link), ok,
                        "with is_dir=%s, path_is_symlink=%s the code performs %s; oracle: exactly %s (a symbolic link is removed itself, a directory with rmdir)" % (is_dir, is_link, got, want),
@@ -142,7 +164,7 @@ def run(ctx):
     if f is not None:
         def role3(t):
             c = t.callee or ""
-            if c == DELETE_FN:
+            if c == DELETE_FN or (not separate and c.split("::<")[0] in REMOVERS):
                 return "delete"
             if c.endswith("MatcherIO::<'_>::set_exit_code"):
                 return "set_exit_code"
@@ -158,8 +180,11 @@ def run(ctx):
             by_src.setdefault(a, []).append((l, b))
         ctx.ob("R3", "no-quit-or-prune", not any(n in by_src or any(b == n for _, b in sum(by_src.values(), [])) for n in ("quit", "mark_skip")),
                "DeleteMatcher::matches must not quit or prune; events: %s" % C.edges_str(edges), fn=f, how="event graph")
-        ok_edges = [(l, b) for l, b in by_src.get("delete", []) if l.split(",")[0] == "0"]
-        err_edges = [(l, b) for l, b in by_src.get("delete", []) if l.split(",")[0] == "1"]
+        del_edges = [(l, b) for a in sorted(by_src) if C.base(a) == "delete" for l, b in by_src[a]]
+        ok_edges = [(l, b) for l, b in del_edges if l.split(",")[0] == "0"]
+        err_edges = [(l, b) for l, b in del_edges if l.split(",")[0] == "1"]
+        ctx.ob("R3", "result-decides", bool(del_edges) and len(ok_edges) + len(err_edges) == len(del_edges),
+               "every edge leaving a removal attempt must be decided by its Result; got %s" % del_edges, fn=f, how="event graph")
         ctx.ob("R3", "ok=>true", bool(ok_edges) and all(b == "RET(const:True)" for _, b in ok_edges),
                "after a successful removal -delete must be true; got %s" % ok_edges, fn=f, how="event graph")
         ctx.ob("R3", "err=>exit-code", bool(err_edges) and all(b.startswith("set_exit_code") for _, b in err_edges),
@@ -174,7 +199,21 @@ def run(ctx):
                        "set_exit_code argument is %s; must be a non-zero constant" % (t.args[1].fmt(f) if len(t.args) > 1 else "?"), fn=f, where=prim.site(f, b), how="constant argument")
         # only the delete() Result decides truth; it must be called at most once per path (one removal attempt per entry)
         n_del = len([1 for n in g.nodes if isinstance(n, tuple) and n[0] == "ev" and n[2] == "delete"])
-        ctx.ob("R3", "single-attempt", n_del == 1, "delete() call sites in matches: %d (exactly one removal attempt per entry)" % n_del, fn=f)
+        if separate:
+            ctx.ob("R3", "single-attempt", n_del == 1, "delete() call sites in matches: %d (exactly one removal attempt per entry)" % n_del, fn=f)
+        else:
+            # removal calls written in `matches` itself: none may be reachable from another
+            def after(n0):
+                seen, st = set(), [n0]
+                while st:
+                    x = st.pop()
+                    for l, b2 in by_src.get(x, []):
+                        if b2 not in seen:
+                            seen.add(b2)
+                            st.append(b2)
+                return seen
+            twice = sorted((a, b2) for a in by_src if C.base(a) == "delete" for b2 in after(a) if C.base(b2) == "delete")
+            ctx.ob("R3", "single-attempt", n_del >= 1 and not twice, "removal attempts in matches: %d; one reachable after another: %s (exactly one removal attempt per entry)" % (n_del, twice), fn=f)
 
     # find's exit status keeps a failed removal (sticky through later entries and starting points)
     shared.sticky_exit_status(ctx, "R3")
